@@ -64,7 +64,7 @@ partial def seqLoop (h : IO.FS.Stream) (cands : List Spec.Check.CS) (script : St
           if msg.startsWith "C04" then "C04" else if msg.startsWith "C05" then "C05"
           else if msg.startsWith "C06" then "C06" else if msg.startsWith "C08" then "C08"
           else if msg.startsWith "C10" then "C10" else if msg.startsWith "C11" then "C11"
-          else if msg.startsWith "C20" then "C20" else if msg.startsWith "C19" then "C19"
+          else if msg.startsWith "C20" then "C20" else if msg.startsWith "C19" then "C19" else if msg.startsWith "C13" then "C13"
           else if msg.startsWith "GetEntry" then "entry"
           else if (msg.splitOn "no explanation").length > 1 then "events"
           else "result"
